@@ -1,12 +1,15 @@
 #!/bin/bash
-# tools/process_round.sh <prefix> <property>...   confirm (in the sub-agent's worktree) and try
-# (in the scratch area, /repo untouched) the two changes of each property; log to /tmp/<prefix>-*.log
+# tools/process_round.sh <prefix> <property>...   confirm (in the sub-agents' worktrees, six at a
+# time) and try (in the scratch area, one after the other; /repo untouched) the two changes
+# of each property.  Output: one "=== <prop> <A|B>" block per change.
 pre="$1"; shift
+crates_of() { case $1 in C16) echo "-p trippy-core -p trippy-tui";; C17|C18) echo "-p trippy-tui";; *) echo "-p trippy-core -p trippy-packet";; esac; }
+export -f crates_of
+for p in "$@"; do for m in A B; do echo "$p $m"; done; done | xargs -P 6 -L 1 bash -c 'p=$0; m=$1; CRATES="$(crates_of $p)" /verif/tools/confirm_mutant.sh /tmp/'"$pre"'-$p $m > /tmp/'"$pre"'-confirm-$p-$m.log 2>&1'
 for p in "$@"; do
-  case $p in C16) c="-p trippy-core -p trippy-tui";; C17|C18) c="-p trippy-tui";; *) c="-p trippy-core -p trippy-packet";; esac
   for m in A B; do
     echo "=== $p $m"
-    CRATES="$c" /verif/tools/confirm_mutant.sh /tmp/$pre-$p $m 2>&1 | tail -1
+    tail -1 /tmp/$pre-confirm-$p-$m.log
     timeout 2400 /verif/tools/try_mutant_scratch.sh /tmp/$pre-$p/_mutant/$m/patch.diff $p quick 2>&1 | tail -4 | cut -c1-330
   done
 done
